@@ -143,7 +143,9 @@ pub fn guarded<T>(case: &T, dir: &Path, runf: &(dyn Fn(&T, &Path) -> Result<Case
             } else {
                 "panic".to_string()
             };
-            Err(Failure { clause: "panic".into(), detail: msg, step: 0, op: String::new() })
+            // the hook recorded "panicked at <file>:<line>:<col>": keep the location of the last one next to the payload
+            let at = take_panic_msgs().last().and_then(|m| m.lines().next().map(|l| l.to_string())).unwrap_or_default();
+            Err(Failure { clause: "panic".into(), detail: if at.is_empty() { msg } else { format!("{} [{}]", msg, at) }, step: 0, op: String::new() })
         }
     }
 }
